@@ -1,9 +1,9 @@
 import WzVerif.Driver.Proto
+import WzVerif.Driver.C06
 namespace Wz.Driver.C07
 open Wz Wz.Proto
 
-/-- stub: no model commands yet -/
-def handle : Handler
-  | _, _ => none
+/-- C07 uses the exception-aware parsers of Model/Http.lean through the same commands as C06 -/
+def handle : Handler := Wz.Driver.C06.handle
 
 end Wz.Driver.C07
